@@ -605,6 +605,7 @@ class Discharger:
         S = self.S(mir)
         t = s.extra["term"]
         conds = dom_conditions(mir, s.bi, S) + list(s.extra.get("extra_conds", ()))
+        conds = conds + self.found_facts(s.body, S, conds)
         conds = conds + self.callee_facts(conds)
         # the idioms below recognise library functions by name (`len`, `is_empty`, `position`, `ends_with` ...): a *workspace*
         # function that happens to carry such a name has no contract - what it guarantees comes from its body (the callee
@@ -919,6 +920,47 @@ class Discharger:
                     return inner
         return None
 
+    def found_facts(self, body, S, conds):
+        """F: `it.find(pred)` / `it.rfind(pred)` / `it.position(pred)` answered Some(x)  =>  pred held for x. The predicate's
+        result expression (a closure of this body whose result is one boolean expression) is added as a dominating condition,
+        with the closure's captures replaced by the parent's expressions and its parameter by the found item."""
+        out = []
+        for e, v, d in conds:
+            if e[0] != "discr" or not isinstance(e[1], tuple):
+                continue
+            g, crossed = _strip_try(e[1])
+            some = (v == 0) if crossed else (v == 1)
+            if not some or g[0] != "call" or g[1].split("::")[-1] not in ("find", "rfind") or not g[1].startswith("core::") or len(g[3]) != 2:
+                continue
+            clo = self.expand(S, sym.norm(g[3][1]))
+            if clo[0] != "closure":
+                continue
+            cbody = next((c for c in self.unit.bodies if c.kind == "Closure" and (c.npath == clo[1] or c.npath.endswith(clo[1].split("::", 1)[-1]) or facts.strip_generics(c.path) == facts.strip_generics(clo[1]))), None)
+            if cbody is None or cbody.mir.local_ty(0) != "bool":
+                continue
+            CS = self.S(cbody.mir)
+            ret = sym.norm(CS.local(0))
+            if any(x[0] == "var" for x in sym.walk(ret)):
+                continue            # more than one way to the result: not a single expression
+            caps = clo[2] if len(clo) > 2 else ()
+            payload = ("field", ("downcast", g, "Some"), "0")
+
+            def sub(x):
+                if not isinstance(x, tuple) or not x or not isinstance(x[0], str):
+                    return x
+                if x[0] == "field" and isinstance(x[1], tuple) and x[1][:2] == ("arg", 1) and str(x[2]).isdigit() and int(x[2]) < len(caps):
+                    return caps[int(x[2])]
+                if x[0] == "arg" and x[1] == 2:
+                    return ("ref", payload)      # find hands its predicate a reference to the item
+                if x[0] == "call":
+                    return ("call", x[1], x[2], tuple(sub(a) for a in x[3]), d)
+                return tuple(sub(y) if isinstance(y, tuple) and y and isinstance(y[0], str) else (tuple(sub(z) for z in y) if isinstance(y, tuple) else y) for y in x)
+            cond = sym.norm(sub(ret))
+            if any(x[0] == "arg" and x[1] != 1 for x in sym.walk(cond)):
+                continue
+            out.append((cond, True, d))
+        return out
+
     def callee_facts(self, conds):
         """S: a dominating condition `helper(args) == v` on a bool-returning workspace function implies the conditions
         common to every path on which the helper can return v (one level, arguments substituted)."""
@@ -990,6 +1032,9 @@ class Discharger:
             if view[0] == "call" and view[1].startswith(("core::", "alloc::", "arrayvec::")) and view[1].split("::")[-1] in ("as_slice", "as_bytes", "deref", "as_ref", "split_at", "split_first", "split_last", "strip_prefix", "strip_suffix", "get") \
                     and not any(x[0] == "var" for x in sym.walk(inner)):
                 # the same (single-assignment) call result: an immutable slice value (or shared sub-slices of one)
+                return True
+            if view[0] == "call" and view[1].startswith("core::") and view[1].split("::")[-1] in ("find", "rfind") and all(len(S.defs_of(x[1])) == 1 for x in sym.walk(inner) if x[0] == "var"):
+                # the item a search handed out: one shared reference, obtained once (the iterator searched is a temporary)
                 return True
             if any(x[0] == "call" for x in sym.walk(inner)):
                 return False
